@@ -147,6 +147,21 @@ def leg_pandas(ns, res, spec):
         dfb = None
         if B is not None:
             dfb = pd.DataFrame(B, columns=case['b_names']) if case['b_names'] is not None else pd.DataFrame(B)
+        if case['a_names'] is None and n % 2 == 1:
+            # column labels that are not strings (years, explicit integers, mixed, tuples): the query is positional, the labels are the caller's
+            def odd_labels(k, off):
+                kind = (n // 2 + off) % 4
+                if kind == 0:
+                    return [2019 + j for j in range(k)]
+                if kind == 1:
+                    return list(range(k))
+                if kind == 2:
+                    return [('x%d' % j if j % 2 else 10 * j + off) for j in range(k)]
+                return pd.MultiIndex.from_tuples([('g%d' % (j // 2), 'c%d' % j) for j in range(k)])
+            dfa.columns = odd_labels(len(A[0]), 0)
+            if dfb is not None:
+                dfb.columns = odd_labels(len(B[0]), 1)
+            res.count('pandas_runs_non_string_labels')
         snap_a, snap_b = dfa.copy(deep=True), (dfb.copy(deep=True) if dfb is not None else None)
         err = None
         try:
@@ -162,7 +177,8 @@ def leg_pandas(ns, res, spec):
         res.nontrivial('pd', qtext, repr(A))
 
         def same(x, y):
-            return x.equals(y) and list(x.dtypes) == list(y.dtypes) and list(x.index) == list(y.index) and list(x.columns) == list(y.columns)
+            return (x.equals(y) and list(x.dtypes) == list(y.dtypes) and list(x.index) == list(y.index) and list(x.columns) == list(y.columns)
+                    and [type(c) for c in x.columns] == [type(c) for c in y.columns] and type(x.columns) is type(y.columns))
         if not same(dfa, snap_a) or (dfb is not None and not same(dfb, snap_b)):
             res.violation('py:dataframe-modified:' + common.feature_sig(case['q']), '[py/pandas] dataframe changed by %s (error=%s): before %r after %r' % (qtext, err, snap_a.values.tolist(), dfa.values.tolist()), dict(case, query_text=qtext, engine='py', leg='pandas'))
         if n % 999 == 0:
@@ -551,7 +567,7 @@ def run_shard(spec, res):
 def summarize(tier, seed, m):
     return {
         'rule': 'the query generators of C01-C05 (every query shape) plus deliberately failing variants (syntax error, parsing error, runtime error, unknown join table), each executed (1) through rbql.query with probes and snapshots, (2) through the icontract-armed query_table, (3) with the CSV writer attached to list input, (4) on the JS engine with array snapshots; list tables with numbers, None and mutable list-valued cells under %d query texts (stars, UNNEST, every aggregate, list arithmetic and methods, UPDATE, joins) through query_table, the CSV writer as sink, a mutating probe sink and pandas object columns, compared with fully deep snapshots; pandas dataframes with deep copies; a file-backed sqlite database with recording connection, authorizer log, total_changes and file hash under %d hostile table identifiers (in the query text, as input table, and passed directly to SqliteRecordIterator); query_csv with file fingerprints and an audit-hook log of every open(); the CLI under strace. distinct_nontrivial = distinct executed (query, source) cases.' % (len(RICH_QUERIES), len(HOSTILE_IDS)),
-        'required': ['rich_cases_with_tuple_rows', 'js_rich_csv_sink_runs_succeeding', 'js_rich_table_runs', 'rich_runs_failing', 'rich_runs_succeeding', 'rich_runs:csv-writer-quoted', 'rich_runs:query+mutating-sink', 'rich_runs:pandas', 'list_runs_failing', 'list_runs_succeeding', 'contract_evaluations', 'csv_writer_on_list_runs', 'column_name_list_checks', 'pandas_runs_succeeding', 'pandas_runs_failing', 'sqlite_runs_hostile', 'sqlite_runs_with_open_transaction', 'sqlite_sql_statements_observed', 'sqlite_authorizer_events', 'sqlite_direct_constructor_runs', 'csv_runs_succeeding', 'csv_runs_failing', 'csv_open_events_observed', 'strace_cli_runs', 'strace_opens_of_sources_observed', 'js_cases'],
+        'required': ['rich_cases_with_tuple_rows', 'js_rich_csv_sink_runs_succeeding', 'js_rich_table_runs', 'rich_runs_failing', 'rich_runs_succeeding', 'rich_runs:csv-writer-quoted', 'rich_runs:query+mutating-sink', 'rich_runs:pandas', 'list_runs_failing', 'list_runs_succeeding', 'contract_evaluations', 'csv_writer_on_list_runs', 'column_name_list_checks', 'pandas_runs_succeeding', 'pandas_runs_failing', 'pandas_runs_non_string_labels', 'sqlite_runs_hostile', 'sqlite_runs_with_open_transaction', 'sqlite_sql_statements_observed', 'sqlite_authorizer_events', 'sqlite_direct_constructor_runs', 'csv_runs_succeeding', 'csv_runs_failing', 'csv_open_events_observed', 'strace_cli_runs', 'strace_opens_of_sources_observed', 'js_cases'],
         'assumptions': ['hostile identifiers are only required not to reach sqlite and not to change the database; the error class they produce is not demanded', 'sqlite3.connect itself opens the database file read-write; the file hash (not the open mode) decides for sqlite'],
     }
 
